@@ -433,6 +433,44 @@ def run(ctx):  # noqa: C901, PLR0912, PLR0915
                    f'still refers to (for a state written through write_entity: the transaction copy, not the MDIB object whose '
                    f'version was raised again for a new child): the state stays one DescriptorVersion behind', fi=fi, node=c)
     ctx.floor('C02.R7', n_dv, 6, 'assignments of a state DescriptorVersion in transactions.py')
+    # ... and it does get one: a state that enters a transaction as a copy of the caller's entity (write_entity*) has its
+    # DescriptorVersion assigned (or update_descriptor_version() called) on every path to the TransactionItem that carries
+    # it, whenever the version counters are to be adjusted - sibling cross-check of the single-state and context-state
+    # variants (the caller's copy may be older than the MDIB)
+    n_we = 0
+    for fi in repo.funcs.values():
+        if fi.module.name != TR or not fi.name.startswith('write_entit'):
+            continue
+        if fi.cls is not None and fi.cls.name == 'DescriptorTransaction':
+            continue   # its commit re-versions the state of every written descriptor (_update_corresponding_state: R4, R7)
+        gw = cfg_of(fi)
+        law = local_assignments(fi.node)
+        for n, c in gw.nodes_calling('TransactionItem'):
+            new = c.args[1] if len(c.args) > 1 else next((k.value for k in c.keywords if k.arg == 'new'), None)
+            if not isinstance(new, ast.Name):
+                continue
+            # only state copies made from the entity (`copy.deepcopy(<entity>.state..)`), not descriptors
+            vals = law.get(new.id, [])
+            if not any(isinstance(v, ast.Call) and call_name(v) == 'deepcopy' and 'state' in unparse(v).lower() for v in vals):
+                continue
+            n_we += 1
+            sets = [m for m in gw.real_nodes() if (m.kind == 'stmt' and isinstance(m.stmt, ast.Assign) and
+                                                   unparse(m.stmt.targets[0]) == f'{new.id}.DescriptorVersion') or
+                    any(call_name(cc) == 'update_descriptor_version' and unparse(cc.func.value) == new.id for cc in m.calls())]
+            off = []
+            for b in gw.nodes:
+                if b.kind == 'branch' and b.label is False and 'adjust' in unparse(b.test) and \
+                        isinstance(b.test, ast.Name):
+                    off.append(b)
+            defs = [d for d in gw.reaching_defs(new.id).get(n.id, set())]
+            leak = any(gw.path_exists(d, n, avoid=sets + off) for d in defs)
+            ctx.ob('C02.R7', f'{fi.cls.name}.{fi.name}: TransactionItem(.., {new.id}) re-versioned', bool(sets) and not leak,
+                   f'{fi.cls.name}.{fi.name}: the state copied from the entity gets the DescriptorVersion of the MDIB descriptor '
+                   f'on every path' if sets and not leak else
+                   f'{fi.cls.name}.{fi.name}: a path from the copy of the caller\'s state to TransactionItem(.., {new.id}) '
+                   f'assigns no DescriptorVersion: written from an entity that was read before the descriptor changed, the '
+                   f'state is committed with the older DescriptorVersion (it decreases)', fi=fi, node=c)
+    ctx.floor('C02.R7', n_we, 2, 'states written from entities by the state transactions (write_entity / write_entities)')
 
     # ------------------------------------------------------------ R6 no state is (re-)added for a removed descriptor
     ctx.rule('C02.R6', 'states whose descriptor is removed in the same transaction are not added back (no orphan states)')
